@@ -218,3 +218,49 @@ def require(ck, rule, inst, gs, what, strength=("always",), loc_hint=None, detai
     for g in good[:1]:
         ck.saw(g.fn)
     return ok
+
+
+GRIND = "winter_prover::channel::ProverChannel::grind_query_seed"
+
+
+def nonce_search_scope(prog):
+    """grind_query_seed together with the private helpers only it (transitively) calls, and the closures of all of them: the code
+    that searches for the proof-of-work nonce, wherever a refactoring put the pieces"""
+    root = prog.fn(GRIND)
+    callers = {}
+    for f in prog.fns.values():
+        for b, t in f.calls():
+            cands, _ = prog.resolve_call(t)
+            for c in cands:
+                callers.setdefault(c.id, set()).add(_owner(prog, f).id)
+    scope = {root.id: root}
+    changed = True
+    while changed:
+        changed = False
+        for f in list(scope.values()):
+            for b, t in f.calls():
+                cands, _ = prog.resolve_call(t)
+                for c in cands:
+                    if c.id in scope or c.crate != root.crate or c.get("impl_trait") or c.get("vis") == "pub":
+                        continue
+                    if callers.get(c.id, set()) <= set(scope):
+                        scope[c.id] = c
+                        changed = True
+                for cid in f.closure_args(t):
+                    if cid in prog.fns and cid not in scope:
+                        scope[cid] = prog.fns[cid]
+                        changed = True
+            for cid in set(getattr(f, "closure_locals", {}).values()):
+                if cid in prog.fns and cid not in scope:
+                    scope[cid] = prog.fns[cid]
+                    changed = True
+    return list(scope.values())
+
+
+def _owner(prog, f):
+    """the named function a closure belongs to"""
+    seen = 0
+    while f.kind == "closure" and f.get("parent_fn") in prog.fns and seen < 6:
+        f = prog.fns[f.get("parent_fn")]
+        seen += 1
+    return f
